@@ -240,6 +240,10 @@ def run(repo: Repo, rep: Report, tier: str) -> None:
     rep.rule("per-instance-state", "mutable state of the protocol objects is created per instance, never as a class attribute")
     per_instance_state(repo, rep, "per-instance-state", {"dul": ("DULServiceProvider",), "fsm": ("StateMachine",), "transport": ("AssociationSocket",), "timer": ("Timer",)})
 
+    # ---- the loop is stopped only when idle ------------------------------------------------------
+    from .c27 import check_stop_only_idle
+    rep.rule("stop-only-idle", "the provider loop is told to stop only in Sta1 (after the closing actions ran), through kill_dul(), or in the catch-all's hard shutdown")
+    check_stop_only_idle(repo, rep, "stop-only-idle")
 
 def check_survival(repo, rep, rm, rule):
     dul = rm.dul
